@@ -102,6 +102,19 @@ LL2C_DEFLOAD(ll2c_ptr)
 typedef char *ll2c_ptr;
 #endif
 
+/* relational abstraction of float operations (only emitted when a contract asks for it) */
+#ifdef LL2C_CBMC
+#define LL2C_UF2(name, op, a, b) ll2c_uf_##name((a), (b))
+#define LL2C_UFCALL(name) __CPROVER_uninterpreted_uf_##name
+float __CPROVER_uninterpreted_fmul_f32(float, float);
+float __CPROVER_uninterpreted_fdiv_f32(float, float);
+double __CPROVER_uninterpreted_fmul_f64(double, double);
+double __CPROVER_uninterpreted_fdiv_f64(double, double);
+#else
+#define LL2C_UF2(name, op, a, b) ((a)op(b))
+#define LL2C_UFCALL(name) name
+#endif
+
 /* bit casts */
 static inline u32 ll2c_f32_bits(float f) {
   union {
@@ -135,6 +148,19 @@ static inline double ll2c_bits_f64(u64 u) {
   x.u = u;
   return x.f;
 }
+
+#ifdef LL2C_CBMC
+/* multiplication is abstracted as a COMMUTATIVE uninterpreted function (operands ordered by bit pattern) */
+static inline float ll2c_uf_fmul_f32(float a, float b) { return ll2c_f32_bits(a) <= ll2c_f32_bits(b) ? __CPROVER_uninterpreted_fmul_f32(a, b) : __CPROVER_uninterpreted_fmul_f32(b, a); }
+static inline double ll2c_uf_fmul_f64(double a, double b) { return ll2c_f64_bits(a) <= ll2c_f64_bits(b) ? __CPROVER_uninterpreted_fmul_f64(a, b) : __CPROVER_uninterpreted_fmul_f64(b, a); }
+static inline float ll2c_uf_fdiv_f32(float a, float b) { return __CPROVER_uninterpreted_fdiv_f32(a, b); }
+static inline double ll2c_uf_fdiv_f64(double a, double b) { return __CPROVER_uninterpreted_fdiv_f64(a, b); }
+#endif
+/* clause-side spellings of the same abstraction (plain arithmetic natively) */
+#define SPEC_FMUL32(a, b) LL2C_UF2(fmul_f32, *, (float)(a), (float)(b))
+#define SPEC_FDIV32(a, b) LL2C_UF2(fdiv_f32, /, (float)(a), (float)(b))
+#define SPEC_FMUL64(a, b) LL2C_UF2(fmul_f64, *, (double)(a), (double)(b))
+#define SPEC_FDIV64(a, b) LL2C_UF2(fdiv_f64, /, (double)(a), (double)(b))
 
 /* sign extension of the low n bits of x (x held zero-extended) */
 static inline s32 ll2c_sext32(u32 x, unsigned n) { return n >= 32 ? (s32)x : (s32)((x ^ (1u << (n - 1))) - (1u << (n - 1))) ; }
